@@ -768,7 +768,7 @@ func partLinks(r *vf.Run, pool []*keys.Identity, hostile []hostileID) {
 func TestC26(t *testing.T) {
 	r := vf.Start(t, "C26", vf.Exploration)
 	defer r.Finish()
-	r.SetRule("signals: fixed edge cases (empty body, request-offer 0/max, empty sdp/ice, 40x SDP, NUL/unicode, a real pion offer) + PRNG SDP offers/answers/pranswer/rollback, ICE candidate JSON, request-offers, each encoded for several recipients of a seeded key pool; per payload: decode by recipient, by 2 other keys, decrypt under 7 other contexts, decode of the same plaintext sealed under those contexts, 6 tamperings, and shared-slice histories (ONE buffer holding the payload - exact, with spare capacity, or inside a larger buffer - presented to the decoder 2..7 times: foreign key(s) / other context / recipient in fixed and PRNG orders, always ending with the recipient; every recipient decode must yield the original, every other attempt must fail, whatever was presented before); plus arbitrary/adversarial bytes as payload and as sealed plaintext (then Validate). roles: all pairs of the key pool's peer-id strings + arbitrary string pairs through VerifIsOfferer, and the role taken by the real newSessionTracker for both directions of pairs of identities; hostile identity pairs = distinct real Ed25519 identities whose ids coincide under a lossy view (same last 5..8 / first 12..16 base58 characters, equal case-folded tail/head, same head..tail abbreviation, same trailing/leading 4..6 raw bytes): a hard-coded table of key seeds found by a birthday search over 5*10^7 keys (re-derived and self-tested each run) plus a live birthday search over a VERIF_SEED-derived key stream, each pair judged through the real newSessionTracker in both directions and through isOfferer on the full ids. links: triples (A,X,Y) of identities; A's real executeLink (real NewWebRTC/newSessionTracker, role decided by the real code) over an in-memory message pipe against a real executeLink holding X's key (honest; both orientations so A is once offerer, once answerer) or Y's key (impostor in the complementary role), plus honest handshakes between hostile (colliding-id) pairs. non-trivial = payload encoded / distinct peers / handshake ran to a decided state; distinct = distinct (signal,recipient), pair, scenario. Oracle: harness knows for whom each payload was encoded and which key the data-channel peer holds: decode(recipient)==original; any other key, other context, foreign-context payload => error; tampered never decodes to a different signal; plaintext not contained in payload; no panic; exactly one offerer per distinct pair, none for a==a; HandleLinkEstablished at A only if the peer holds the signaled key and then with remote==signaled.")
+	r.SetRule("signals: fixed edge cases (empty body, request-offer 0/max, empty sdp/ice, 40x SDP, NUL/unicode, a real pion offer) + PRNG SDP offers/answers/pranswer/rollback, ICE candidate JSON, request-offers, each encoded for several recipients of a seeded key pool; per payload: decode by recipient, by 2 other keys, decrypt under 7 other contexts, decode of the same plaintext sealed under those contexts, 6 tamperings, and shared-slice histories (ONE buffer holding the payload - exact, with spare capacity, or inside a larger buffer - presented to the decoder 2..7 times: foreign key(s) / other context / recipient in fixed and PRNG orders, always ending with the recipient; every recipient decode must yield the original, every other attempt must fail, whatever was presented before); plus arbitrary/adversarial bytes as payload and as sealed plaintext (then Validate). roles: all pairs of the key pool's peer-id strings + arbitrary string pairs through VerifIsOfferer, and the role taken by the real newSessionTracker for both directions of pairs of identities; hostile identity pairs = distinct real Ed25519 identities whose ids coincide under a lossy view (same last 5..8 / first 12..16 base58 characters, equal case-folded tail/head, same head..tail abbreviation, same trailing/leading 4..6 raw bytes): a hard-coded table of key seeds found by a birthday search over 5*10^7 keys (re-derived and self-tested each run) plus a live birthday search over a VERIF_SEED-derived key stream, each pair judged through the real newSessionTracker in both directions and through isOfferer on the full ids. roles under configuration options: for pairs of identities (pool pairs and hostile colliding-id pairs, both orientations by PRNG) the REAL transport of each side is built with the public NewWebRTC from a harness-made Config, run (Execute, DialPeer) on a real controller bus whose SignalPeer directive the harness resolves, and the role the real sessionTracker takes is read off its first transmitted signal, decoded with the dialed peer's private key (sdp offer = offerer, request_offer = answerer); option sets over all 11 Config fields (disable_listen, verbose, all_peers, signaling_id, quic, web_rtc, block_peers, transport_type, backoff, dialers, transport_peer_id): 'core' pairs = all 2^6 (quick) / 2^8 (thorough) sets of the leading options + default, every single option, every two options, all, all-but-one; 'singles' pairs = default, every single option, all; thorough also one pair with all 2^11 sets; each side's sets are observed once and the verdict is taken over the full cross product (set of A, set of B): the two observed roles must differ for EVERY combination (violation key newSessionTracker/role-clash/config-options). Which of the two offers (harness reference: the id text that sorts first bytewise) is counted, not judged. A tracker that transmits nothing (pion drops the negotiation-needed event when the callback is registered late: liveness) is re-run with a fresh transport; watchdog expiry is inconclusive. links: triples (A,X,Y) of identities; A's real executeLink (real NewWebRTC/newSessionTracker, role decided by the real code) over an in-memory message pipe against a real executeLink holding X's key (honest; both orientations so A is once offerer, once answerer) or Y's key (impostor in the complementary role), plus honest handshakes between hostile (colliding-id) pairs. non-trivial = payload encoded / distinct peers / handshake ran to a decided state; distinct = distinct (signal,recipient), pair, scenario. Oracle: harness knows for whom each payload was encoded and which key the data-channel peer holds: decode(recipient)==original; any other key, other context, foreign-context payload => error; tampered never decodes to a different signal; plaintext not contained in payload; no panic; exactly one offerer per distinct pair, none for a==a; HandleLinkEstablished at A only if the peer holds the signaled key and then with remote==signaled.")
 	r.Assume("Impostor decisions are condition based: the dialing side's executeLink returning (handshake failed or its link was torn down) is awaited, then A's handler record is inspected, then again after A's context was cancelled and executeLink returned. Watchdog expiry (90 s) is inconclusive.")
 	r.Assume("The impostor is a data-channel peer with its own valid bifrost identity (key Y); it cannot present X's certificate. Signaling-level identity (who the relay says sent a signal) is C19/C20's subject.")
 	npool := r.N(64, 640)
@@ -776,5 +776,6 @@ func TestC26(t *testing.T) {
 	partSignals(r, pool)
 	partRoles(r, pool)
 	hostile := partHostileRoles(t, r)
+	partOptionRoles(r, pool, hostile)
 	partLinks(r, pool, hostile)
 }
